@@ -29,8 +29,10 @@ import (
 var verifC03BloomSet []string
 var verifC03Bf = &bloom.BloomFilter{}
 
-func verifC03AddToBloom(bf *bloom.BloomFilter, value []byte, ownBuffer bool)                   { panic("bridged") }
-func verifC03RawMatch(mf *structs.MatchFilter, rec []byte, caseInsensitive bool) (bool, error) { panic("bridged") }
+func verifC03AddToBloom(bf *bloom.BloomFilter, value []byte, ownBuffer bool) { panic("bridged") }
+func verifC03RawMatch(mf *structs.MatchFilter, rec []byte, caseInsensitive bool) (bool, error) {
+	panic("bridged")
+}
 
 func verifC03BloomHas(s string) bool {
 	for _, w := range verifC03BloomSet {
